@@ -252,7 +252,7 @@ func cmdRx(args []string) int {
 			st.hist("tag:" + t)
 		}
 		hg := newHayGen(r.fork(uint64(i)+1000), c.re)
-		extra := hg.perLiteral()
+		extra := append(hg.perLiteral(), hg.overlapHays()...)
 		for j := 0; j < *nhay+len(extra); j++ {
 			var h []byte
 			if j < *nhay {
